@@ -32,17 +32,19 @@ def pool(package):
     return ["x", "y", "x_0", "x_1", "x_entry", "x_0_entry", "types", "messages", "schema", "detail", package]
 
 
-# identifiers the emitted code itself uses for parameters, locals, template parameters and helpers
-IMPL_NAMES = ["c", "v", "num_in_group", "header", "Byte", "Cursor", "visitor", "size", "other", "value", "T", "last", "res", "std", "sbepp"]
+# identifiers the emitted code (and the library base classes) use for template parameters, parameters, locals and members
+IMPL_NAMES = ["c", "v", "num_in_group", "header", "visitor", "other", "res", "std", "sbepp", "count", "pos",
+              "Byte", "Cursor", "T", "Visitor", "Args", "args", "last", "size", "value", "begin", "end",
+              "Tag", "View", "Entry", "Dimension", "Byte2", "U", "E", "lhs", "rhs", "first", "It", "R", "detail", "this_"]
+IMPL_NAMES_QUICK = IMPL_NAMES[:22]
 # slots that live in different scopes and can therefore carry the same name in one schema
-SCOPE_SETS = [["comp_m1", "inner_m", "enum_val", "set_choice", "field", "group_field", "nested_field"], ["comp_m2", "field2"],
-              ["group"], ["nested"], ["data"], ["msg"], ["comp"], ["enum"], ["set"], ["type"], ["inner"]]
+SCOPE_SETS = [["comp_m1", "inner_m", "enum_val", "set_choice", "field", "group_field", "nested_field"],
+              ["comp_m2", "group", "comp"], ["field2", "nested", "enum"], ["data", "set", "inner"], ["msg", "type"]]
 
 
 def impl_name_schemas(tier):
     k = 0
-    names_ = IMPL_NAMES if tier != "quick" else IMPL_NAMES[:8]
-    for nm in names_:
+    for nm in (IMPL_NAMES if tier != "quick" else IMPL_NAMES_QUICK):
         for slots in SCOPE_SETS:
             k += 1
             yield "impl-name:%s@%s" % (nm, "+".join(slots)), template({s: nm for s in slots}, "im%d" % k)
